@@ -227,6 +227,29 @@ var muts = []mut{
 		}
 		return []string{t.bump() + "(" + b + ");"}
 	}},
+	// routes by which a mutable reference could be obtained from the place without `&'` appearing
+	// on it directly: a cast, a struct field of type &'T, an array element of type &'T
+	{id: "cast_mut", gen: func(pl string, t ty, refRoot bool, s string) []string {
+		b := "&" + pl
+		if refRoot {
+			b = pl
+		}
+		return []string{"let m" + s + ": &'" + t.src() + " = " + b + " as &'" + t.src() + ";", t.writeThrough("m" + s)}
+	}},
+	{id: "field_mut", gen: func(pl string, t ty, refRoot bool, s string) []string {
+		b := "&" + pl
+		if refRoot {
+			b = pl
+		}
+		return []string{"let h" + s + " := { .R = " + b + " } as H_" + t.id() + ";", t.writeThrough("h" + s + ".R")}
+	}},
+	{id: "elem_mut", gen: func(pl string, t ty, refRoot bool, s string) []string {
+		b := "&" + pl
+		if refRoot {
+			b = pl
+		}
+		return []string{"let e" + s + ": [1]&'" + t.src() + " = [" + b + "];", t.writeThrough("e" + s + "[0]")}
+	}},
 	{id: "method_mut", method: true, gen: func(pl string, _ ty, _ bool, _ string) []string { return []string{pl + ".inc();"} }},
 }
 
@@ -255,6 +278,10 @@ var kinds = []kind{
 	{id: "const_local", types: []ty{tI, tP, tA, tAP}, judged: true},
 	{id: "loop_index_array", types: []ty{tI}, judged: true},
 	{id: "loop_index_range", types: []ty{tI}, judged: true},
+	// the second loop variable blank, a string, a dynamic array variable
+	{id: "loop_index_blank", types: []ty{tI}, judged: true},
+	{id: "loop_index_str", types: []ty{tI}, judged: true},
+	{id: "loop_index_dyn", types: []ty{tI}, judged: true},
 	{id: "loop_key_map", types: []ty{tI}, judged: false},
 	{id: "catch_var", types: []ty{tI, tP}, judged: true},
 	{id: "ref_param", types: []ty{tI, tP, tA, tAP}, ref: true, judged: true},
@@ -405,7 +432,12 @@ fn bump_P(p: &'P) { p.F += 1; }
 fn bump_arr(p: &'[2]i32) { p[0] += 1; }
 fn bump_arrP(p: &'[2]P) { p[0].F += 1; }
 fn (p: &'P) inc() { p.F += 1; }
-fn (p: &'In) inc() { p.G += 1; }`
+fn (p: &'In) inc() { p.G += 1; }
+type H_i32 struct { .R: &'i32 };
+type H_In struct { .R: &'In };
+type H_P struct { .R: &'P };
+type H_arr struct { .R: &'[2]i32 };
+type H_arrP struct { .R: &'[2]P };`
 
 func refTy(t ty, control bool) string {
 	if control {
@@ -474,6 +506,15 @@ func (g *group) render(sel []int, control, prints bool) (string, [][2]int) {
 		top = append(top, fmt.Sprintf("%s x: %s = %s;", decl, t.src(), t.init()))
 	case "loop_index_array":
 		open = []string{"let it := [7];", "for x, v in it {", "    io::Println(v);", "    let j := x;", "    io::Println(j);"}
+		cls = []string{"}"}
+	case "loop_index_blank":
+		open = []string{"let it := [7];", "for x, _ in it {", "    io::Println(7);", "    let j := x;", "    io::Println(j);"}
+		cls = []string{"}"}
+	case "loop_index_str":
+		open = []string{"let it: str = \"a\";", "for x, v in it {", "    io::Println(7);", "    let j := x;", "    io::Println(j);"}
+		cls = []string{"}"}
+	case "loop_index_dyn":
+		open = []string{"let it: []i32 = [7];", "for x, v in it {", "    io::Println(v);", "    let j := x;", "    io::Println(j);"}
 		cls = []string{"}"}
 	case "loop_index_range":
 		open = []string{"let lo: i32 = 0;", "let hi: i32 = 1;", "for x, v in lo..hi {", "    io::Println(v);", "    let j := x;", "    io::Println(j);"}
@@ -616,6 +657,9 @@ func enumerate(quick bool) []*group {
 						}
 						if !m.applies(p.t) || (k.global && !m.write) {
 							continue
+						}
+						if (m.id == "cast_mut" || m.id == "field_mut" || m.id == "elem_mut") && !(k.ref && p.root) {
+							continue // only where the place itself is a reference binding (the twin's is &'T)
 						}
 						if strings.HasPrefix(k.id, "ref_local") && p.root && m.id == "borrow_mut" && c.enc != "cap" {
 							// not typed: `let x: &'T = &'c; let m: &'T = x;` is a second mutable borrow of c
@@ -1125,7 +1169,7 @@ func observed(g *group, lines []string) [][2][]string {
 	n := len(g.rt.leaves("x"))
 	pos := 0 // lines printed ahead of the first item by the loop / catch scaffolding
 	switch g.k.id {
-	case "loop_index_array", "loop_index_range", "loop_key_map":
+	case "loop_index_array", "loop_index_range", "loop_key_map", "loop_index_blank", "loop_index_str", "loop_index_dyn":
 		pos = 2
 	case "catch_var":
 		pos = 1
